@@ -4,16 +4,17 @@ from common import Failure
 from props._base import *  # noqa
 from refids import ref_res, ref_decode
 
-LEAN_MODULES = ['A5.Props.C02']
+LEAN_MODULES = ['A5.Props.C02', 'A5.Props.C02Centre']
 LEVEL = 'other'
 EXPLANATION = ('PROVED (Lean): the world cell maps to (0,0); in exact arithmetic the repaired wrap sends every value of [-540,540] (in particular theta-93 in (-273,87]) into [-180,180] by whole turns and leaves in-range values untouched; '
-               'whatever lonlat_to_cell returns for the centre has the resolution asked for; the lattice round trip holds whenever the centre lies in its unit triangle (C18). '
+               'whatever lonlat_to_cell returns for the centre has the resolution asked for; the lattice round trip holds whenever the centre lies in its unit triangle (C18); '
+               'and UNCONDITIONALLY in exact arithmetic on the exact values of the double constants (`centre_roundtrip`): for every Hilbert level <= 30, every index and all six orientations the centroid of the cell\'s planar pentagon, taken through face_to_ij, is mapped by ij_to_s to the cell\'s own index (all 16 shapes keep a margin >= 1/10 from their unit triangle; BASIS_INVERSE*BASIS - I is bounded by 2^-50). '
                'TIED: cell_to_lonlat and lonlat_to_cell are compared bit for bit with their full IEEE-double Lean model every run. '
-               'ASSUMED (numeric, swept each run): H-roundtrip lonlat_to_cell(cell_to_lonlat(c), res c) = c; H-inside the centre lies strictly inside the ring of c; H-range longitude/latitude ranges in floating point.')
+               'ASSUMED (numeric, swept each run): H-roundtrip lonlat_to_cell(cell_to_lonlat(c), res c) = c (what is left of it: the projection round trip plane -> sphere -> plane stays within the proved lattice margin, and IEEE rounding); H-inside the centre lies strictly inside the ring of c; H-range longitude/latitude ranges in floating point.')
 RULE = 'cells: all of resolutions 0..2 (quick) / 0..4 (thorough); structured positions (all-0, all-3, 0333.., 1000.., alternating) on random faces/segments for resolutions 2..29; cells found at poles, frame points and the antimeridian; random cells'
 ASSUMPTIONS = ['H-roundtrip', 'H-inside', 'H-range', 'bit-exact agreement of the Lean Float model with the implementation beyond the sampled cells']
-LEVEL_TEXT = 'partial: range of the wrapped longitude (exact arithmetic), world cell and resolution of the round-trip result are machine-checked; the round trip itself is numeric and is a named assumption swept on structured and adversarial cells'
-TECHNIQUE = 'Lean 4 proof (wrap range, decision logic) on a bit-exact executable model + assumption sweep'
+LEVEL_TEXT = 'partial: range of the wrapped longitude, world cell, resolution of the round-trip result and the whole lattice half of the round trip (centre -> face_to_ij -> ij_to_s = index, every level/orientation, exact arithmetic) are machine-checked; the round trip itself is numeric and is a named assumption swept on structured and adversarial cells'
+TECHNIQUE = 'Lean 4 proof (wrap range, decision logic, lattice round trip with kernel-decided shape margins) on a bit-exact executable model + assumption sweep'
 DESIGN_REF = 'DESIGN.md §3 C02'
 
 def gen_ops(tier, rng):
